@@ -101,25 +101,25 @@ int EvalExpression::run(AsmContext *asm_context, Var &answer, bool is_paren)
       // 4:   oper
       // 5: (num)
 
-      if (need_symbol(count) || var_stack.size() == 3)
+      if (need_symbol(count))
       {
         print_error_unexp(asm_context, token);
         return -1;
       }
 
-      var_stack.push_int(token);
+      if (var_stack.push_int(token) != 0) { return -1; }
       count++;
     }
       else
     if (token_type == TOKEN_FLOAT)
     {
-      if (need_symbol(count) || var_stack.size() == 3)
+      if (need_symbol(count))
       {
         print_error_unexp(asm_context, token);
         return -1;
       }
 
-      var_stack.push_float(token);
+      if (var_stack.push_float(token) != 0) { return -1; }
       count++;
     }
       else
@@ -182,6 +182,22 @@ int EvalExpression::run(AsmContext *asm_context, Var &answer, bool is_paren)
           return -1;
         }
 
+        // Before this operator can wait for its right hand operand, finish
+        // every pending operator that binds at least as tightly (equal
+        // precedence associates left to right).
+        while (oper_stack.is_empty() == false &&
+               oper_stack.top().precedence <= oper.precedence)
+        {
+          if (var_stack.size() < 2)
+          {
+            print_error_unexp(asm_context, token);
+            return -1;
+          }
+
+          if (execute_stack(var_stack, oper_stack) != 0) { return  -1; }
+          count -= 2;
+        }
+
         oper_stack.push(oper);
         count++;
       }
@@ -194,18 +210,6 @@ int EvalExpression::run(AsmContext *asm_context, Var &answer, bool is_paren)
       }
 
       return -1;
-    }
-
-    if (var_stack.size() == 3)
-    {
-      if (oper_stack.size() != 2)
-      {
-        print_error_unexp(asm_context, token);
-        return -1;
-      }
-
-      if (execute_stack(var_stack, oper_stack) != 0) { return  -1; }
-      count -= 2;
     }
   }
 
@@ -248,30 +252,15 @@ int EvalExpression::run_paren(AsmContext *asm_context, Var &answer)
 
 int EvalExpression::execute_stack(VarStack &var_stack, OperStack &oper_stack)
 {
-  Operator oper;
-  Var d;
-  Var s;
+  // The operator on top of the stack binds tighter than everything below
+  // it and its operands are the two values on top of the value stack.
+  Operator oper = oper_stack.pop();
 
-  if (oper_stack.get_precedence_index() == 0)
-  {
-    oper = oper_stack.pop_first();
+  Var s = var_stack.pop();
+  Var d = var_stack.pop();
 
-    d = var_stack.pop_first();
-    s = var_stack.pop_first();
-
-    if (oper.execute(d, s) != 0) { return -1; }
-    var_stack.push_front(d);
-  }
-    else
-  {
-    oper = oper_stack.pop();
-
-    s = var_stack.pop();
-    d = var_stack.pop();
-
-    if (oper.execute(d, s) != 0) { return -1; }
-    var_stack.push(d);
-  }
+  if (oper.execute(d, s) != 0) { return -1; }
+  var_stack.push(d);
 
   return 0;
 }
